@@ -528,6 +528,9 @@ pub(crate) struct DrawState {
     /// True if the previous draw printed nothing: the cursor is then not parked at the end of the
     /// last line but sits at the start of the row below it.
     cursor_below: bool,
+    /// True if the previous draw was cut short by the terminal height: the cursor was then left
+    /// right behind the last printed line instead of at the right edge of its last row.
+    cursor_mid_row: bool,
     /// The number of blank lines the previous draw put above the bars to keep them aligned to
     /// the bottom.
     padding: VisualLines,
@@ -545,6 +548,16 @@ impl DrawState {
     ) -> io::Result<()> {
         if panicking() {
             return Ok(());
+        }
+
+        // If the previous frame was cut short by the terminal height and none of its rows is left
+        // to be cleared (they were all kept as static text), start on a fresh row instead of
+        // appending to the row the cursor was left in.
+        let mut fresh_row = false;
+        if self.cursor_mid_row && *bar_count == VisualLines::default() {
+            term.write_line("")?;
+            self.cursor_mid_row = false;
+            fresh_row = true;
         }
 
         let mut cleared_any = false;
@@ -596,6 +609,7 @@ impl DrawState {
         // full height exceeds the terminal height.
         let mut real_height = VisualLines::default();
         let mut printed_any = false;
+        let mut cut = false;
 
         for (idx, line) in self.lines.iter().enumerate() {
             let line_height = line.wrapped_height(term_width);
@@ -604,6 +618,7 @@ impl DrawState {
             if matches!(line, LineType::Bar(_)) {
                 // Stop here if printing this bar would exceed the terminal height
                 if real_height + line_height > term.height().into() {
+                    cut = true;
                     break;
                 }
 
@@ -653,8 +668,13 @@ impl DrawState {
         *bar_count = real_height + shift;
         self.padding = shift;
         if printed_any {
+            self.cursor_mid_row = cut;
+        } else if cleared_any {
+            self.cursor_mid_row = false;
+        }
+        if printed_any {
             self.cursor_below = false;
-        } else if cleared_any || shift != VisualLines::default() {
+        } else if cleared_any || fresh_row || shift != VisualLines::default() {
             // (an empty bottom-aligned frame consists of blank lines only and leaves the cursor
             // below them)
             self.cursor_below = true;
